@@ -54,6 +54,8 @@ func (o Op) String() string {
 		return fmt.Sprintf("h%d.sync", o.H)
 	case "hclose":
 		return fmt.Sprintf("h%d.close", o.H)
+	case "hlist":
+		return fmt.Sprintf("h%d.readdirnames", o.H)
 	case "htrunc":
 		return fmt.Sprintf("h%d.truncate(%d)", o.H, o.N)
 	case "hwriteat":
